@@ -87,4 +87,35 @@ theorem final_rel (prm : Params K) (ip : Vec K → Vec K → K) (sqrt : K → K)
     rw [body_rel prm.damping ip sqrt A P f s s' h]; exact ⟨rfl, rfl, rfl, rfl⟩
   · exact ⟨rfl, rfl, rfl, rfl⟩
 
+/-! #### exact preconditioner, `damping = 1` -/
+
+theorem exact_first_pass (ip : Vec K → Vec K → K) (sqrt : K → K) (A : CRS K) (hA : A.WF) (P : Vec K → Vec K)
+    (hP : ∀ v, (P v).size = A.ncols)
+    (hAP : ∀ v z, v.size = A.nrows → spmv 1 A (P v) 0 z = v) (ws : Work K) (f x0 : Vec K) :
+    (body 1 ip sqrt A P f (init ip sqrt A ws f x0)).w.r = vclear A.nrows := by
+  show residual f A (axpby 1 (P (residual f A x0)) 1 x0) = vclear A.nrows
+  rw [← paired_update_inv f A hA 1 (P (residual f A x0)) x0 x0 (by rw [hP]),
+    hAP _ _ (residual_size' f A x0), axpby_cancel, residual_size']
+
+theorem exact_final (prm : Params K) (ip : Vec K → Vec K → K) (sqrt : K → K) (A : CRS K) (hA : A.WF)
+    (P : Vec K → Vec K) (hP : ∀ v, (P v).size = A.ncols)
+    (hAP : ∀ v z, v.size = A.nrows → spmv 1 A (P v) 0 z = v) (ws : Work K) (f x0 : Vec K) (nf : K)
+    (hω : prm.damping = 1) (hmax : 1 ≤ prm.maxiter)
+    (hstart : epsTol prm nf < absK (nrm ip sqrt (residual f A x0)))
+    (hz : nrm ip sqrt (vclear A.nrows) = 0) (heps : ¬ epsTol prm nf < 0) :
+    final prm ip sqrt A P ws f x0 nf = body 1 ip sqrt A P f (init ip sqrt A ws f x0) := by
+  obtain ⟨m, hm⟩ : ∃ m, prm.maxiter = m + 1 := ⟨prm.maxiter - 1, by omega⟩
+  unfold final loop
+  rw [hm, loopN, hω]
+  have hc : cond (epsTol prm nf) (init ip sqrt A ws f x0) = true := by
+    simp only [cond, init]; exact decide_eq_true hstart
+  rw [if_pos hc]
+  apply loopN_of_not_cond
+  have hr := exact_first_pass ip sqrt A hA P hP hAP ws f x0
+  have hres : (body 1 ip sqrt A P f (init ip sqrt A ws f x0)).res = 0 := by
+    show nrm ip sqrt (body 1 ip sqrt A P f (init ip sqrt A ws f x0)).w.r = 0
+    rw [hr, hz]
+  simp only [cond, hres, absK_zero]
+  simpa using heps
+
 end Amgcl.Solver.Richardson
